@@ -302,6 +302,38 @@ def perentry_rules(facts, rep):
                      "ZipArchive::new reaches %s: an unsupported or damaged entry would fail the whole archive" % bad)
 
 
+def sentinel_rules(facts, rep):
+    """a classic end-record field that ZIP64 producers may mask with the all-ones sentinel (APPNOTE 4.4.19-4.4.24: disk numbers
+    0xFFFF) is compared with anything only after record_too_small() said that no field is masked -- otherwise a single-disk ZIP64
+    archive that masks its disk numbers is refused as multi-disk"""
+    from engine.paths import paths as _paths
+    rule = "C03-SENTINEL"
+    ok = True
+    n = 0
+    for pat in (r"^read::<impl read::zip_archive::ZipArchive<R>>::get_directory_counts$", r"^read::<impl read::zip_archive::ZipArchive<R>>::new$"):
+        f = facts.one(pat)
+        unguarded, seen = [], 0
+        for p in _paths(f, max_paths=20000):
+            small = None
+            for a_, v_ in p["decisions"]:
+                if a_ == "#iter":
+                    continue
+                if re.search(r"record_too_small\(", a_) and "disk_number" not in a_:
+                    small = v_
+                elif re.search(r"\.disk_number\b|\.disk_with_central_directory\b", a_) and "Zip64CentralDirectoryEnd" not in a_.split(",")[0]:
+                    seen += 1
+                    if small != 0:
+                        unguarded.append(a_[:70])
+        if seen:
+            n += 1
+        ok &= rep.check(seen >= 1 and not unguarded, rule, "disk-number-compared-only-unmasked@%s" % f.path.split("::")[-1], where(f, f.span),
+                        "the classic record's disk numbers are compared only on paths where record_too_small() is false",
+                        "classic disk-number field compared without the masked-record exemption (%s): ZIP64 archives that mask the classic disk "
+                        "numbers with 0xFFFF are rejected as multi-disk" % (sorted(set(unguarded))[:2] or "comparison not found"))
+    rep.floor(rule, 2)
+    return ok
+
+
 def aes_extra_rules(ctx, facts, rep):
     rule = "C03-AESX"
     spec = ctx.spec("appnote.json")["aes_extra"]
@@ -377,6 +409,7 @@ def run(ctx, rep):
     search_rules(ctx, facts, rep)
     names_rules(facts, rep)
     perentry_rules(facts, rep)
+    sentinel_rules(facts, rep)
     from rules.C19 import table_rules as cp437_table_rules
     cp437_table_rules(facts, rep)      # reported as C03/C19-TABLE
     from rules.C10 import extra_tolerance_rules
